@@ -59,7 +59,7 @@ P('C02', ['sess.uid', 'sess.twofa', 'sess.totpPend', 'sess.smsPend', 'sess.smsCo
   tconsts={'MaxDepth': 6})
 P('C12', ['db.otps', 'db.rcLeft', 'db.rcg', 'db.totpLast', 'sess.smsCode', 'sess.uid'], ['otp', 'twofa'], ['twofa', 'full'],
   fam_consts={'twofa': {'MaxDepth': 5}, 'otp': {'MaxIss': 7}}, tconsts={'MaxDepth': 6})
-P('C13', ['db.totp', 'db.sms', 'db.rcg', 'db.rcLeft', 'sess.tfaTok', 'sess.tfaAuthed', 'sess.totpSetup', 'sess.smsNum'],
+P('C13', ['db.totp', 'db.sms', 'db.rcg', 'db.rcLeft', 'sess.tfaTok', 'sess.tfaAuthed', 'sess.totpSetup', 'sess.smsNum', 'sess.half', 'sess.twofa'],
   ['tfasetup'], ['twofa', 'full'], fam_consts={'tfasetup': {'MaxDepth': 6}}, tconsts={'MaxDepth': 7})
 P('C14', ['sess.oState', 'sess.oHas', 'sess.oRm', 'sess.uid', 'db.ex', 'db.extra'], ['oauth'], ['oauth', 'full'],
   fam_consts={'oauth': dict(OPIDS, MaxDepth=5)}, tconsts={'MaxDepth': 6}, foot_acts=['OAuthStart', 'OAuthCallback'])
